@@ -34,10 +34,12 @@ def seeds():
             continue
         m = json.load(open(mp))
         sid = os.path.basename(d)
-        res = {}
+        res, demo_state = {}, None
         rp = os.path.join(d, "result.json")
         if os.path.exists(rp):
-            res = json.load(open(rp)).get("results", {})
+            rj = json.load(open(rp))
+            res = rj.get("results", {})
+            demo_state = rj.get("demo_with_change_on_head")
         verdicts, whats = [], []
         for pid, r in res.items():
             v = "CAUGHT" if r.get("caught") else "MISSED"
@@ -46,6 +48,8 @@ def seeds():
             verdicts.append("%s: %s" % (pid, v))
             if r.get("what"):
                 whats.append(esc(str(r["what"])[:160]))
+        if demo_state == "passes":
+            verdicts.append("(demo no longer fails on the repaired tree: neutralised by a later fix)")
         out.append("| %s | %s | %s | %s | %s | %s |" % (sid, m.get("property"), esc(m.get("title", m.get("what_breaks", ""))[:200]), esc(m.get("needs_to_manifest", "")[:220]),
                                                   "; ".join(verdicts) or "not run yet", "; ".join(whats)))
     return "\n".join(out)
